@@ -1,3 +1,5 @@
 import TsProofs.Properties.C20
 import TsProofs.Properties.C17
 import TsProofs.Properties.C08
+import TsProofs.Properties.C16
+import TsProofs.Properties.C15
